@@ -727,6 +727,24 @@ func (e *Exec) otherTo(to []byte) string {
 	return e.w.users[0].Address
 }
 
+// unlessStillPaid: the verdict the property fixes for a transaction whose real outputs were tampered with: it must be
+// refused, unless its outputs still hold every token output of the contract as often as the contract made it (an
+// identical output of the initiator's own - the change of the fee inputs - can stand in for the one that was taken
+// away: the initiator then gives away his own change, which he is free to do). The generator avoids that coincidence.
+func (e *Exec) unlessStillPaid(p *Pending, tx *pb.Transaction) string {
+	have := map[[2]int]int{}
+	for _, o := range tx.TxOutputs {
+		have[[2]int{e.w.userNo(o.ToAddr), int(new(big.Int).SetBytes(o.Amount).Int64())}]++
+	}
+	for _, x := range p.X {
+		if have[x] < 1 {
+			return "reject"
+		}
+		have[x]--
+	}
+	return ""
+}
+
 // setTransient replaces the value of the transient write-set entry `key` by the marshalled messages (the entry is
 // created in front if the write set has none; an empty list removes it).
 func setTransient(tx *pb.Transaction, key string, msgs interface{}) bool {
@@ -908,7 +926,7 @@ func (e *Exec) mutate(p *Pending, class string, args []string) (tx *pb.Transacti
 			return nil, "n/a"
 		}
 		tx.TxOutputs[j].ToAddr = []byte(e.otherTo(tx.TxOutputs[j].ToAddr))
-		expect = "reject"
+		expect = e.unlessStillPaid(p, tx)
 	case "xamt": // the contract's real output number j (default: the first worth more than 1) is lowered by 1, the difference goes to the initiator
 		dflt := p.NConOut
 		for j := 0; j < p.NConOut; j++ {
@@ -924,7 +942,7 @@ func (e *Exec) mutate(p *Pending, class string, args []string) (tx *pb.Transacti
 		a := new(big.Int).SetBytes(tx.TxOutputs[j].Amount)
 		tx.TxOutputs[j].Amount = a.Sub(a, big.NewInt(1)).Bytes()
 		tx.TxOutputs = append(tx.TxOutputs, &protos.TxOutput{ToAddr: []byte(w.users[0].Address), Amount: big.NewInt(1).Bytes()})
-		expect = "reject"
+		expect = e.unlessStillPaid(p, tx)
 	case "xboth": // output number j goes to another address in the declaration (transient ContractUtxo.Outputs) and in the real outputs alike
 		j, ok := idxArg(args, 0)
 		dOut, err := xmodel.ParseContractUtxoOutputs(tx)
@@ -1005,9 +1023,13 @@ func (e *Exec) mutate(p *Pending, class string, args []string) (tx *pb.Transacti
 			return nil, "n/a"
 		}
 		expect = "reject"
-	case "inreal": // the real input spending declared contract input number j is replaced by outputs of the initiator
+	case "inreal", "ishort":
+		// inreal: the real input spending declared contract input number j is replaced by outputs of the initiator;
+		// ishort: that declared contract input is dropped from the declaration as well, so the transaction balances
+		// but the declared contract inputs no longer cover the contract's transfers
 		j, ok := idxArg(args, 0)
-		if !ok || j >= p.NConIn {
+		dIn, perr := xmodel.ParseContractUtxoInputs(tx)
+		if !ok || perr != nil || j >= p.NConIn || j >= len(dIn) {
 			return nil, "n/a"
 		}
 		need := new(big.Int).SetBytes(tx.TxInputs[j].Amount)
@@ -1018,6 +1040,12 @@ func (e *Exec) mutate(p *Pending, class string, args []string) (tx *pb.Transacti
 		tx.TxInputs = append(append(tx.TxInputs[:j:j], tx.TxInputs[j+1:]...), ins...)
 		if chg := new(big.Int).Sub(total, need); chg.Sign() > 0 {
 			tx.TxOutputs = append(tx.TxOutputs, &protos.TxOutput{ToAddr: []byte(w.users[0].Address), Amount: chg.Bytes()})
+		}
+		if class == "ishort" {
+			dIn = append(dIn[:j:j], dIn[j+1:]...)
+			if !setTransient(tx, "ContractUtxo.Inputs", dIn) {
+				return nil, "n/a"
+			}
 		}
 		expect = "reject"
 	case "xdecl": // the declared transfer (transient ContractUtxo.Outputs) is dropped from the write set
